@@ -14,15 +14,6 @@
 (***************************************************************************)
 EXTENDS JV
 
-KindOf(d) == CASE d.t = "str" -> "string" [] d.t = "num" -> "float64" [] d.t = "bool" -> "bool" [] OTHER -> "iface"
-
-Carrier(s) ==
-  IF Len(Types(s)) = 1 THEN
-       CASE s.type[1] = "string" -> "string" [] s.type[1] = "integer" -> "int" [] s.type[1] = "number" -> "float64"
-         [] s.type[1] = "boolean" -> "bool" [] OTHER -> "iface"
-  ELSE LET ks == {KindOf(s.enum[i]) : i \in DOMAIN s.enum} IN
-       IF Cardinality(ks) = 1 THEN CHOOSE k \in ks : TRUE ELSE "iface"
-
 \* json.Unmarshal(value, &v): [ok, v] -- v is the value later compared (zero value after a null)
 CarrierDecode(c, d) ==
   CASE c = "iface"   -> [ok |-> TRUE, v |-> d]
